@@ -1,1 +1,8 @@
 import Mustache.Basic.LineIO
+import Mustache.Props.C04
+import Mustache.Props.C15
+import Mustache.Props.C07
+import Mustache.Props.C11
+import Mustache.Props.C14
+import Mustache.Props.C08
+import Mustache.Props.C16
